@@ -228,6 +228,27 @@ PROPS = {
         "assumptions": ["ids are injective (equal id implies equal event)", "a-tag references are claimed for addressable events only", "which of several versions with equal newest created_at is kept is not constrained",
                         "upper-case hex in deletion e-tags is not generated"],
     },
+    "C13": {
+        "lean_modules": ["MocProps.C13"], "theorem_files": ["MocProps/C13.lean"],
+        "gen_groups": ["Sites", "Router", "Prom"], "harness_prop": "c13", "driver_prop": "c13",
+        "monitors": ["termination"],
+        "n_quick": 700, "n_thorough": 7000, "thorough_seeds": 3, "timeout": 3000,
+        "rule": "handler compositions (1-3 of default / cache / router / SQLite, merged when more than one; under 0-3 of the provided limiting/filtering middlewares and, 60%, the Prometheus middleware) "
+                "serve a 5-11 message history (EVENT/REQ/CLOSE/COUNT; 12% long: 64-90 stored events then a match-all REQ) that is cut at EVERY point in three ways: cancel with a draining peer, "
+                "cancel with a peer that stopped reading (more input is pushed so that output piles up), inbound channel closed with a draining peer; observed: ServeNostr returns within 5 s, "
+                "goroutines with a frame of the repository's packages are back to the pre-session count within 3 s, router registry (verif accessor) empty, gauges back to 0; plus, once per run, "
+                "a real Relay with a flooding handler and a WebSocket peer that never reads for SendTimeout 150/400 ms x PingDuration 0/30 ms/60 s; non-trivial = every session; distinct = distinct output line",
+        "level_text": "Partial, the weakest of the set (Go runtime). Proved: over the regenerated list of EVERY channel operation of handler.go, relay.go, utils.go, handler/sqlite/handler.go and the Prometheus "
+                      "middleware, each operation has a <-ctx.Done() alternative, or is non-blocking, or is one of 38 enumerated operations that cannot park (buffered / token / join / closed), occurrence "
+                      "by occurrence (sites_guarded_or_justified, justifications_known, session_loops_guarded); a configured send timeout bounds every WebSocket write for every ping interval incl. "
+                      "disabled (write_deadline_applies, from the regenerated guard of sendMsgWithTimeout); disconnect removes the whole registry entry (registry_released, C07 model). "
+                      "Runtime-validated: that sessions return, leave no goroutine, registry entry or gauge value at every cut point of every generated history, for both ways of ending and both peer "
+                      "behaviours, and that a non-reading WebSocket peer is dropped after SendTimeout.",
+        "level_note": "Trusted: Lean kernel + standard axioms; go2lean's site extractor (go/ast: send statements, receive expressions, selects, ranges over channels made/received in the function); the "
+                      "justifications of the 38 unguarded operations are read off the code; harness/driver; Go runtime, coder/websocket.",
+        "assumptions": ["'promptly' = ServeNostr returns within 5 s and goroutines are gone within 3 s more", "inbound close with a stalled peer and no cancellation is not claimed (the statement says 'while output is being drained')",
+                        "SendTimeout > 0"],
+    },
     "C14": {
         "lean_modules": ["MocProps.C14"], "theorem_files": ["MocProps/C14.lean"],
         "gen_groups": ["Sqlite", "Cache", "Matcher"], "harness_prop": "sqlitefault", "driver_prop": "sqlite", "stateful": True,
